@@ -56,6 +56,18 @@ def gen(tier, rng):
         out.append(('%s/reject-blobversion' % e, '\n'.join(ver) + '\n'))
         iv = list(base); iv[0] += ' nomodel=1'; iv[oi:oi] = ['patch index 0 72 0f', 'patch index 1 73 %s' % (otherK).to_bytes(2, 'little').hex()]
         out.append(('%s/index-mismatch' % e, '\n'.join(iv) + '\n'))
+        if 'bloom=none' in base[0]:
+            # a directory written WITHOUT bloom filters (its index files hold a 0-bit filter placeholder) opened by a storage
+            # that has them switched on: every recorded answer has to come back
+            from .gen_storage import bloom_cfg_hex
+            wb = [l for l in base if l.split()[0] not in ('CF', 'filehex')]
+            wb[0] = wb[0].replace('bloom=none', 'bloom=%s' % bloom_cfg_hex()) + ' nomodel=1'
+            wb.insert(1, 'nop open-with-bloom')
+            for lazy in (False, True):
+                wl = list(wb)
+                if lazy:
+                    wl[0] = wl[0].replace('init=eager', 'init=lazy')
+                out.append(('%s/open-with-bloom%s' % (e, '-lazy' if lazy else ''), '\n'.join(wl) + '\n'))
     return out
 
 
@@ -72,7 +84,9 @@ def oracle(lines, io, spec=None):
         if l.split()[0] in ('R', 'C', 'RD', 'RA', 'RW', 'CF', 'counts', 'filehex'):
             recorded[l] = o
     variant = 'plain'
-    if 'nomodel=1' in lines[0]:
+    if 'nop open-with-bloom' in lines:
+        variant = 'plain'
+    elif 'nomodel=1' in lines[0]:
         if any(l.startswith('patch blob') for l in lines): variant = 'blobversion'
         elif any(l.startswith('patch index') for l in lines): variant = 'indexmismatch'
         else: variant = 'keysize'
